@@ -4,6 +4,7 @@ open Zutil
 open PropagationModel
 open Model
 open Bodies
+open Crew
 
 let z = z_of_int
 let iz = int_of_z
@@ -38,9 +39,11 @@ let show l =
   else "[" ^ String.concat "," (Stdlib.List.map string_of_int l) ^ "]"
 let ids = function None -> "null" | Some m -> string_of_int (iz m)
 
-type kindinfo = Crew of ckind * bool * wkind option   (* nested kind, multi, wrapper kind *)
+type kindinfo = Inl of bool                             (* inline crew, stateful traits: hash (true) / tree (false) *)
+              | Crew of ckind * bool * wkind option   (* nested kind, multi, wrapper kind *)
               | Arr of int * bool                     (* internal capacity, is stdish vector *)
 let kind_of = function
+  | "HashSetInl" -> Inl true | "TreeSetInl" -> Inl false
   | "Array" -> Arr (0, false) | "ArrayIC" -> Arr (4, false) | "Seg" -> Arr (0, false)
   | "HashSet" | "HashMap" -> Crew (KHash, false, None)
   | "HashMulti" -> Crew (KMulti, true, None)
@@ -247,6 +250,51 @@ let run_crew k multi wko tr op ss ts sid tid aid post sst tst est =
   Printf.printf "%s S2=%s s2c=%s F=%s fc=%s E=0\n" line1 (ids (mgr_of s2)) (show (il (items_of s2)))
     (if useF then ids (mgr_of f2) else "-") (if useF then show (il (items_of f2)) else "[]")
 
+
+(* ---- inline-crew sets with stateful traits (Crew.v): the ids are traits states *)
+let run_inl ishash op ss ts sid tid aid post sst tst =
+  let mk id st base = let (items, _) = spec_items st base false in
+    { is_crew = z id; is_built = z id; is_shape = []; is_items = zl items } in
+  let s = mk sid ss 1000 and t = mk tid ts 200000 in
+  let self = String.length op >= 4 && String.sub op 0 4 = "self" in
+  let none = (op = "none") in
+  let iscopy = String.length op >= 4 && String.sub op 0 4 = "copy" in
+  let empty_tok = if ishash then "H" else "T0:" in
+  let copy_tok tok items = if items = [] then empty_tok else if ishash then "H" ^ string_of_int (Stdlib.List.length items) else tok in
+  let rb x = x in
+  let (t1, s1, ts_str, ss_str) =
+    match op with
+    | "none" | "selfcopya" | "selfmovea" | "selfswap" -> (t, s, "-", sst)
+    | "copyc" | "copyca" -> (iset_copy_ctor rb s, s, copy_tok sst s.is_items, sst)
+    | "copya" -> (iset_copy_assign rb t s, s, copy_tok sst s.is_items, sst)
+    | "movec" -> let (n, s') = iset_move_ctor s in (n, s', sst, empty_tok)
+    | "movea" -> let (t', s') = iset_move_assign t s in (t', s', sst, empty_tok)
+    | "swap" -> let (t', s') = iset_swap t s in (t', s', sst, tst)
+    | _ -> failwith "op" in
+  let tid_s x = string_of_int (iz (ic_traits x.is_crew)) in
+  let line1 = Printf.sprintf "ok T=%s S=%s tc=%s sc=%s mv=0 cp=%d ts=%s ss=%s"
+      (if self || none then "-" else tid_s t1) (tid_s s1)
+      (if self || none then "[]" else show (il t1.is_items)) (show (il s1.is_items))
+      (if iscopy && s.is_items <> [] then 1 else 0) ts_str ss_str in
+  let useF = Stdlib.List.mem post ["swapf"; "fswap"; "massign"; "cassign"; "fmove"; "ccopy"; "find"] in
+  let f0 = iset_new (z aid) in
+  let f = if Stdlib.List.mem post ["swapf"; "fswap"; "massign"; "cassign"] then Stdlib.List.fold_left (fun c i -> iset_insert c (z (300000 + 3 * i))) f0 [0; 1; 2; 3; 4] else f0 in
+  let (s2, f2) =
+    match post with
+    | "none" -> (s1, f)
+    | "clear" -> ({ s1 with is_items = [] }, f)
+    | "swapf" -> iset_swap s1 f
+    | "fswap" -> let (f', s') = iset_swap f s1 in (s', f')
+    | "massign" -> iset_move_assign s1 f
+    | "cassign" -> (iset_copy_assign rb s1 f, f)
+    | "reuse" -> (iset_insert (iset_insert s1 (z 400001)) (z 400004), f)
+    | "fmove" -> let (f', s') = iset_move_assign f s1 in (s', f')
+    | "ccopy" -> (s1, iset_copy_ctor rb s1)
+    | "find" -> if iset_find s1 (z 1003) then (s1, iset_insert f (z 1)) else (s1, f)
+    | _ -> failwith "post" in
+  Printf.printf "%s S2=%s s2c=%s F=%s fc=%s E=0\n" line1 (tid_s s2) (show (il s2.is_items))
+    (if useF then tid_s f2 else "-") (if useF then show (il f2.is_items) else "[]")
+
 let run_arr ic isvec tr op ss ts sid tid aid post =
   let selfnone = (op = "none" || (String.length op >= 4 && String.sub op 0 4 = "self")) in
   let w0 = { next = z 0; trace = [] } in
@@ -316,6 +364,7 @@ let () = iter_lines (fun line ->
       let tr = traits_of trs in
       let (sid, tid, aid) = (int_of_string sid, int_of_string tid, int_of_string aid) in
       (match kind_of kind with
+       | Inl ishash -> run_inl ishash op ss ts sid tid aid post sst tst
        | Crew (k, multi, wko) -> run_crew k multi wko tr op ss ts sid tid aid post sst tst est
        | Arr (ic, isvec) -> run_arr ic isvec tr op ss ts sid tid aid post)
     with Abort -> print_endline "abort" | Wrong -> print_endline "ok E=1" | Failure m -> print_endline ("model-error:" ^ m))
